@@ -1,10 +1,15 @@
 ENGINES = {
+    'C02': 'sim.engines.c02',
+    'C03': 'sim.engines.c03',
     'C04': 'sim.engines.c04',
     'C05': 'sim.engines.machine',
     'C07': 'sim.engines.c07',
+    'C14': 'sim.engines.c14',
 }
 
 ENGINE_TABLE = [
+    {'name': 'E-pipeline', 'path': 'sim/engines/pipeline.py', 'serves_properties': ['C02', 'C03', 'C14'],
+     'kind_free_text': 'proof modules composed with the real toolkit (seeded forward composition of primitive rules and every public library lemma over an import graph), serialised by the real ProofExp.serialize through an in-memory file system (SimFS) installed at the module-global open seam, then handed to the real Rust checker, the reference machine R1, the journal model R6 and the real deserialiser; stream faults injected into the live byte stream'},
     {'name': 'E-history', 'path': 'sim/engines/history.py', 'serves_properties': ['C04', 'C07'],
      'kind_free_text': 'seeded histories of proof-DSL calls (incl. adversarial, inapplicable calls) issued to a real SerializingInterpreter (bare or under MemoizingInterpreter / InstantiationOptimizer) writing to in-memory sinks; lock-step refinement of the emitted bytes against the reference machine R1 and the real Rust checker'},
     {'name': 'E-machine', 'path': 'sim/engines/machine.py', 'serves_properties': ['C05'],
@@ -12,6 +17,24 @@ ENGINE_TABLE = [
 ]
 
 META = {
+    'C02': {
+        'engine': 'E-pipeline', 'level': 'exploration', 'design_ref': 'DESIGN.md section 4 (C02)',
+        'technique': 'deterministic simulation of the generator -> files -> checker pipeline (fault-free class): seeded module compositions through the real serialiser and an in-memory file system into the real checker and a reference machine',
+        'text': 'Every module the toolkit accepts at construction and serialisation (shipped modules and seeded compositions of prop1-3, Quantifier, modus_ponens, exists_generalization, dynamic_inst and all public lemmas of Propositional/Tautology incl. prove_tautology, over import graphs, optimise off and on, in seeded order on one module object) must be accepted by the real checker and by R1. A Python exception during construction or serialisation counts as the toolkit refusing, not as a violation. Modules are sampled: evidence, not proof.',
+        'note': 'Trusted: R1, the harness tail, SimFS. Well-formed workload: pattern arguments are well-formed by the documented judgement, explicit instantiations legal by R3. Known findings D5/D12/D14 are reported as KNOWN-FINDING.',
+    },
+    'C03': {
+        'engine': 'E-pipeline', 'level': 'exploration', 'design_ref': 'DESIGN.md section 4 (C03)',
+        'technique': 'deterministic simulation of the pipeline with an id-space exhaustion fault class: publish journal of a reference machine on the emitted files versus an independent walk over the declared module graph',
+        'text': 'R1 executes the emitted files; its publish journal (axioms de-duplicated by first occurrence, claims, discharges) must equal the declaration walked independently over the import graph under one injective symbol map per triple, for both optimise settings; modules that cannot be encoded in one-byte ids (more than 256 symbols, ids above 255, over-long constraint lists, more than 256 memory slots) must be refused by the serialiser, never wrapped around.',
+        'note': 'Trusted: R1, R6 (the walk order: imported modules first, depth first), the bridge. Triples that R1 rejects are left to C02.',
+    },
+    'C14': {
+        'engine': 'E-pipeline', 'level': 'fault_enumeration', 'design_ref': 'DESIGN.md section 4 (C14)',
+        'technique': 'deterministic simulation of the writer -> stored stream -> deserialiser pipeline with faults injected into the live stream: every cut inside every instruction and unknown/zero opcodes, against a recording writer and reader',
+        'text': 'A recording SerializingInterpreter writes the three phases of a module; the bytes of each phase are fed through the real deserialize_instructions into a fresh recording reader: same call sequence (methods, scalar operands, term operands modulo symbol renaming) and same stack/memory/claims at the end of each phase. Fault enumeration per stream: before every instruction of the live stream, every truncation inside it and a zero / unknown opcode in its place must make the deserialiser raise. The cut positions are exhaustive per stream, the modules are sampled.',
+        'note': 'Trusted: the recording subclasses, R1.split for instruction boundaries. Claims are compared from the end of the claim phase on (a fresh reader learns them there). Large modules use a StatefulInterpreter reader (the pretty-printing one dumps the stack per call), small ones the PrettyPrintingInterpreter.',
+    },
     'C04': {
         'engine': 'E-history', 'level': 'exploration', 'design_ref': 'DESIGN.md section 4 (C04)',
         'technique': 'deterministic simulation: seeded call histories against the real stateful/serialising interpreter, lock-step refinement of the emitted byte stream against an executable reference machine after every call',
